@@ -144,12 +144,14 @@ def spline(potential_forms, potential_form_builder):
   pot2 = pform.next._replace(next = None)
 
   allowed_spline_types = [s.spline_keyword for s in spline_factories]
-  if not pot2.potential_form in allowed_spline_types:
+  # A potential modifier (e.g. sum()) has no potential form label, it can not be used as the spline type.
+  spline_type = getattr(pot2, "potential_form", None)
+  if not spline_type in allowed_spline_types:
     allowed_spline_types_str = ["'{}'".format(t) for t in allowed_spline_types]
     allowed_spline_types_str = ",".join(allowed_spline_types_str)
     raise ConfigurationException("spline modifier only accepts spline types {} for middle potential form. '{}' was found instead".format(
       allowed_spline_types_str,
-      pot2.potential_form))
+      spline_type if spline_type is not None else pot2.modifier + "()"))
 
   if pform.next.next is None:
     raise ConfigurationException("spline modifier requires three sub-potentials to be defined only two specified.")
@@ -186,10 +188,11 @@ def spline(potential_forms, potential_form_builder):
 
   spline_factory = [s for s in spline_factories if s.spline_keyword == pot2.potential_form ][0]
 
+  # The start and end potentials may themselves be potential modifiers, which do not have a potential form label.
   logger.debug("spline modifier: connecting '{}' with {} to '{}' in range {} to {}".format(
-    pot1.potential_form,
+    getattr(pot1, "potential_form", pot1),
     pot2.potential_form,
-    pot2.potential_form,
+    getattr(pot3, "potential_form", pot3),
     detach_point, attach_point))
 
   # Now build the spline object
